@@ -594,6 +594,214 @@ def tie_catalog_number_test(rng, n):
     return len(exp), [(c, a[:200], b[:200]) for (c, a), b in zip(exp, out) if a.replace(" N-Test", "_N-Test") != b.replace(" N-Test", "_N-Test")]
 
 
+def _ce_forecast(rng):
+    """a small list forecast on a Cartesian region with magnitudes, and an observed catalog: some catalogs empty (nan in the
+    distribution), observed events possibly in a cell no forecast catalog touches (-inf: undersampled), possibly none"""
+    import numpy
+    from csep.core import regions
+    from csep.core.catalogs import CSEPCatalog
+    from csep.core.forecasts import CatalogForecast
+    nx, ny = rng.randint(1, 3), rng.randint(1, 2)
+    origins = [(30.0 + i, -2.0 + j) for i in range(nx) for j in range(ny)]
+    reg = regions.CartesianGrid2D.from_origins(numpy.array(origins), dh=1.0)
+    reg.magnitudes = numpy.array([4.0, 5.0])
+    used = [o for o in origins if rng.random() < 0.75] or origins[:1]
+
+    def cat(k, pool):
+        evs = []
+        for j in range(k):
+            o = rng.choice(pool)
+            evs.append((j + 1, 1000 * j, o[1] + 0.5, o[0] + 0.5, 10.0, rng.choice([4.2, 5.5])))
+        return CSEPCatalog(data=evs)
+    cats = [cat(rng.choice([0, 1, 2, 4]), used) for _ in range(rng.choice([1, 2, 4, 8]))]
+    obs = cat(rng.choice([0, 1, 2, 3]), used if rng.random() < 0.6 else origins)
+    obs.region = reg
+    return CatalogForecast(catalogs=cats, region=reg, name="t"), obs, cats
+
+
+def _tie_ce(fname, op, with_count):
+    def tie(rng, n):
+        import math
+        import numpy
+        from csep.core import catalog_evaluations as ce
+        drv, exp = Driver(), []
+        for _ in range(max(20, n // 10)):
+            fore, obs, cats = _ce_forecast(rng)
+            with numpy.errstate(all="ignore"):
+                try:
+                    import contextlib, io
+                    with contextlib.redirect_stdout(io.StringIO()):     # the function prints also with verbose=False
+                        r = getattr(ce, fname)(fore, obs, verbose=False)
+                        if fore.expected_rates is None:                 # returned before the rates were needed
+                            fore.get_expected_rates(verbose=False)
+                except Exception as e:
+                    continue        # e.g. every forecast catalog empty: nan rates, outside the real layer
+                gf = fore.expected_rates
+                rates = [float(v) for v in numpy.asarray(gf.spatial_counts()).ravel()]
+                ecc = float(gf.sum())
+            if not all(math.isfinite(v) for v in rates + [ecc]):
+                continue
+            gobs = [int(v) for v in obs.spatial_counts()]
+            gcats = [[int(v) for v in c.spatial_counts()] for c in cats]
+            exp.append((dict(ncat=len(cats), gobs=gobs), r))
+            drv.ask(f"{op} {','.join(_bits(v) for v in rates)} {_bits(ecc)} {ilist(gobs)} "
+                    f"{';'.join(ilist(g) for g in gcats)}" + (f" {obs.event_count}" if with_count else ""))
+        out = drv.run()
+        bad = []
+        un = lambda t: math.nan if t == "none" else (-math.inf if t == "-inf" else _unbits(t))
+        same = lambda x, y: (math.isnan(x) and math.isnan(y)) or x == y or (
+            math.isfinite(x) and math.isfinite(y) and abs(x - y) <= 1e-12 * max(1.0, abs(x), abs(y)))
+        for (c, r), b in zip(exp, out):
+            if not b.startswith("ok "):
+                bad.append((c, "ok", b[:160])); continue
+            if r is None or b == "ok none":
+                if not (r is None and b == "ok none"):
+                    bad.append((c, "None" if r is None else r.status, b[:160]))
+                continue
+            st, ob, q, dist, name = b[3:].split("|")
+            want_dist = [float(v) for v in numpy.asarray(r.test_distribution).ravel()]
+            got_dist = [] if dist == "-" else [un(t) for t in dist.split(",")]
+            ok = st == r.status and name == r.name and same(un(ob), float(r.observed_statistic)) and \
+                len(want_dist) == len(got_dist) and all(same(x, y) for x, y in zip(want_dist, got_dist))
+            if q == "sentinel":
+                ok = ok and tuple(r.quantile) == (-1, -1)
+            else:
+                qs = []
+                for t in q.split(","):
+                    qs.append(None if t == "none" else int(t.split(":")[0]) / int(t.split(":")[1]))
+                ok = ok and len(qs) == 2 and all((a is None and b_ is None) or (a is not None and b_ is not None and float(b_) == a)
+                                                  for a, b_ in zip(qs, r.quantile))
+            if not ok:
+                bad.append((c, f"{r.status}|{r.observed_statistic}|{r.quantile}|{want_dist[:4]}", b[:200]))
+        return len(exp), bad
+    tie.__doc__ = (f"the real `catalog_evaluations.{fname}(forecast, obs, verbose=False)` against `SrcSM.catalog_{fname}` with "
+                   "the hand model's `_compute_likelihood` / quantiles at Float: status (or None), observed statistic, "
+                   "distribution (1e-12, -inf / nan exact), quantiles (as k/n), name")
+    return tie
+
+
+def tie_catalog_magnitude_test(rng, n):
+    """the real `catalog_evaluations.magnitude_test(forecast, obs, verbose=False)` against `SrcSM.catalog_magnitude_test` with
+    the hand model's `cumulative_square_diff` / quantiles at Float: status, observed statistic (or None), distribution
+    (1e-12), quantiles (as k/n, or (None, None)), name. Forecasts without any event (`n_union_events == 0`: the division is
+    outside the real layer) are skipped"""
+    import math
+    import numpy
+    import contextlib, io
+    from csep.core import catalog_evaluations as ce
+    drv, exp = Driver(), []
+    for _ in range(max(20, n // 10)):
+        fore, obs, cats = _ce_forecast(rng)
+        with numpy.errstate(all="ignore"):
+            try:
+                with contextlib.redirect_stdout(io.StringIO()):
+                    r = ce.magnitude_test(fore, obs, verbose=False)
+                    if fore.expected_rates is None:
+                        fore.get_expected_rates(verbose=False)
+            except Exception as e:
+                continue
+            union = [float(v) for v in numpy.asarray(fore.expected_rates.magnitude_counts()).ravel()]
+        if not all(math.isfinite(v) for v in union) or sum(union) == 0:
+            continue
+        hobs = [int(v) for v in obs.magnitude_counts()]
+        mcs = [[int(v) for v in c.magnitude_counts()] for c in cats]
+        exp.append((dict(ncat=len(cats), hobs=hobs, mcs=mcs[:4]), r))
+        drv.ask(f"srcsm_catalog_magnitude_test {','.join(_bits(v) for v in union)} {ilist(hobs)} "
+                f"{';'.join(ilist(g) for g in mcs)} {obs.event_count}")
+    out = drv.run()
+    bad = []
+    same = lambda x, y: x == y or (math.isfinite(x) and math.isfinite(y) and abs(x - y) <= 1e-12 * max(1.0, abs(x), abs(y)))
+    for (c, r), b in zip(exp, out):
+        if not b.startswith("ok "):
+            bad.append((c, "ok", b[:160])); continue
+        st, ob, q, dist, name = b[3:].split("|")
+        want_dist = [float(v) for v in numpy.asarray(r.test_distribution).ravel()]
+        got_dist = [] if dist == "-" else [_unbits(t) for t in dist.split(",")]
+        ok = st == r.status and name == r.name and len(want_dist) == len(got_dist) and \
+            all(same(x, y) for x, y in zip(want_dist, got_dist))
+        ok = ok and ((ob == "none") == (r.observed_statistic is None)) and \
+            (ob == "none" or same(_unbits(ob), float(r.observed_statistic)))
+        qs = [None if t == "none" else int(t.split(":")[0]) / int(t.split(":")[1]) for t in q.split(",")]
+        ok = ok and len(qs) == 2 and all((a is None and b_ is None) or (a is not None and b_ is not None and float(b_) == a)
+                                          for a, b_ in zip(qs, r.quantile))
+        if not ok:
+            bad.append((c, f"{r.status}|{r.observed_statistic}|{r.quantile}|{want_dist[:4]}", b[:200]))
+    return len(exp), bad
+
+
+tie_catalog_spatial_test = _tie_ce("spatial_test", "srcsm_catalog_spatial_test", False)
+tie_catalog_pseudolikelihood_test = _tie_ce("pseudolikelihood_test", "srcsm_catalog_pseudolikelihood_test", True)
+
+
+# ----------------------------------------------------------------------------- C19 ndk record loop
+def tie_ndk_loop(rng, n):
+    """the real `readers.ndk` on generated files (records of harness/c19.py `gen_ndk`, some broken in the ways of its
+    `_NDK_BREAK`, some files with 1-4 extra lines at the end) against `SrcSM.ndk_loop`: what each group of five lines does
+    (skipped with which warning / RuntimeError / the event) is taken from the real function run on that group alone; the
+    whole file then checks the grouping, the skip rules, which exception ends the load, the ids (group indices), the order"""
+    import tempfile, os, shutil, warnings
+    from . import c19 as base
+    from csep.utils import readers
+    drv, exp = Driver(), []
+    d = tempfile.mkdtemp(prefix="verif_ndk_tie_")
+
+    def run(text, k):
+        path = os.path.join(d, f"f{k}.ndk")
+        with open(path, "w", newline="") as f:
+            f.write(text)
+        with warnings.catch_warnings(record=True) as w:
+            warnings.simplefilter("always")
+            try:
+                r = ("ok", readers.ndk(path))
+            except Exception as e:
+                r = ("err", type(e).__name__)
+        os.unlink(path)
+        return r, [str(x.message) for x in w]
+    try:
+        for k in range(max(20, n // 10)):
+            spec = base.gen_ndk(rng, rng.randint(1, 5))
+            groups = []
+            for r in spec["recs"]:
+                L = list(r["text"])
+                how = rng.choice(base._NDK_BREAK + [None] * 14)
+                if how == "source-type":
+                    L[1] = L[1][:62] + "CMT: 3" + L[1][68:]
+                elif how == "centroid-word":
+                    L[2] = "CENTROIX:" + L[2][9:]
+                elif how == "latitude-text":
+                    L[0] = L[0][:27] + " n/a  " + L[0][33:]
+                elif how == "time-second-65":
+                    L[0] = L[0][:22] + "65.4" + L[0][26:]
+                elif how == "time-60.5":
+                    L[0] = L[0][:22] + "60.5" + L[0][26:]
+                elif how == "zero-moment":
+                    L[4] = L[4][:49] + "  0.000" + L[4][56:]
+                groups.append(L)
+            toks = []
+            for L in groups:
+                (st, val), ws = run("\n".join(L) + "\n", k)
+                if st == "err":
+                    toks.append("r" if val == "RuntimeError" else "?" + val)
+                elif not val:
+                    toks.append("t" if any("Invalid time" in m for m in ws) else "v")
+                else:
+                    e = val[0]
+                    toks.append("k," + ",".join([str(int(e[1]))] + [str(Fraction(float(x))) for x in e[2:]]))
+            lines = [l for L in groups for l in L] + ["x"] * rng.choice([0, 0, 1, 2, 4])
+            text = "\n".join(lines) + ("\n" if rng.random() < 0.8 else "")
+            (st, val), _ = run(text, k)
+            want = "err " + val if st == "err" else "ok " + (",".join(
+                ":".join([str(e[0]), str(int(e[1]))] + [str(Fraction(float(x))) for x in e[2:]]) for e in val) or "-")
+            if any(t.startswith("?") for t in toks):
+                continue        # an exception class this tie does not distinguish
+            exp.append((dict(groups=len(groups), toks=[t[:1] for t in toks], lines=len(lines)), want))
+            drv.ask(f"srcsm_ndk_loop {len(lines)} {';'.join(toks) or '-'}")
+    finally:
+        shutil.rmtree(d, ignore_errors=True)
+    out = drv.run()
+    return len(exp), [(c, a[:200], b[:200]) for (c, a), b in zip(exp, out) if a != b]
+
+
 # ----------------------------------------------------------------------------- C04 filter
 def _hex(x):
     return x.encode("utf-8").hex()
@@ -892,6 +1100,10 @@ def tie_build_bitmask_loop(rng, n):
 
 
 TIES = {
+    "catalog_spatial_test": tie_catalog_spatial_test,
+    "catalog_pseudolikelihood_test": tie_catalog_pseudolikelihood_test,
+    "catalog_magnitude_test": tie_catalog_magnitude_test,
+    "ndk_loop": tie_ndk_loop,
     "catalog_number_test": tie_catalog_number_test,
     "get_expected_rates": tie_get_expected_rates,
     "binary_test_loop": tie_binary_test_loop(False),
